@@ -213,12 +213,20 @@ Theorem C04_rule_cited_incompatible_units : forall fx ueq early W me e o un un2,
 Proof. exact ValidCited2Proofs.incompatible_units_cited. Qed.
 Print Assumptions C04_rule_cited_incompatible_units.
 
+(** The rule added by /repo 49595f2 is in the model (through C01's switch MathDefs.diff_ci_fix_committed, part of the node
+    rule of WF): diff applied to something that is not a ci is reported with MATH_MATHML, diff of a ci is accepted. *)
+Theorem C04_rule_cited_diff_operand :
+  validate current_fixes ueq_c08 false w_diff_of_cn = [(Error, V_MATH_MATHML)]
+  /\ validate current_fixes ueq_c08 false w_diff_of_ci = [].
+Proof. exact ValidWitness.w_diff_operand_facts. Qed.
+Print Assumptions C04_rule_cited_diff_operand.
+
 (** MathML faults at any depth of a document are seen: unsupported elements, unknown <ci>, <cn> units. *)
 Theorem C04_math_any_depth : forall q vars units d,
   is_mathml_el "math" d = true ->
   (forall k y, In k (kids_of d) -> In y (elements k) -> is_supported y = false -> In R_MATH_CHILD (val_math_env_q q vars units d))
   /\ (forall ns n attrs kids, In (Elem ns n attrs kids) (elements d) -> is_mathml_el "ci" (Elem ns n attrs kids) = true ->
-        text_of (first_child kids) <> "" -> ~ In (text_of (first_child kids)) vars ->
+        ci_text kids <> "" -> ~ In (ci_text kids) vars ->
         In R_MATH_CI_VARIABLE_REFERENCE (val_math_env_q q vars units d))
   /\ (forall ns n attrs kids r, In (Elem ns n attrs kids) (elements d) -> is_mathml_el "cn" (Elem ns n attrs kids) = true ->
         In r (val_cn_units units attrs) -> In r (val_math_env_q q vars units d)).
@@ -230,10 +238,10 @@ Proof.
 Qed.
 Print Assumptions C04_math_any_depth.
 
-(** The MathML passes of this model ARE C01's transcription of validateMath (MathDefs.val_math_env_gen2), with the
-    qualifier switch where MathDefs records it for the tree. *)
+(** The MathML passes of this model ARE C01's transcription of validateMath as it is on HEAD (MathDefs.val_math_env_head),
+    with the qualifier switch where MathDefs records it for the tree. *)
 Theorem C04_math_is_C01_transcription : forall vars units root,
-  val_math_env_q qualifier_fix_committed vars units root = MathDefs.val_math_env vars units root.
+  val_math_env_q qualifier_fix_committed vars units root = MathDefs.val_math_env_head vars units root.
 Proof. exact ValidMathProofs.val_math_env_q_c01. Qed.
 Print Assumptions C04_math_is_C01_transcription.
 
